@@ -5,7 +5,8 @@
 //	mode "static": the REAL parameter code on one string: parseParamValue (hook), LoadYAML (default
 //	               params, no evaluation), Load(base, file, params) (params given at start, evaluating),
 //	               model.Params (the recorded string), removeQuotes / escapeArg (hooks).
-//	mode "dyn"   : a DAG run in-process by the REAL agent (agent.New(...).Run) with real `sh` steps; the
+//	mode "dyn"   : a DAG run by the REAL command line of package cmd (`start`, then `retry --req`, optionally `restart`, each in
+//	               a process of its own through the cmd hook VerifExecute = rootCmd.Execute) with real `sh` steps; the
 //	               values seen by real child processes at every consumer position (adjacent step, distant
 //	               step, handlers, and a later retry of the run built exactly as cmd/retry.go builds it)
 //	               are read back from probe files.  Every dyn case runs in a fresh child process of this
@@ -16,7 +17,6 @@ package main
 import (
 	"bufio"
 	"bytes"
-	"context"
 	"encoding/hex"
 	"encoding/json"
 	"fmt"
@@ -31,7 +31,6 @@ import (
 	"time"
 
 	"github.com/ErdemOzgen/blackdagger/cmd"
-	"github.com/ErdemOzgen/blackdagger/internal/agent"
 	"github.com/ErdemOzgen/blackdagger/internal/client"
 	"github.com/ErdemOzgen/blackdagger/internal/dag"
 	"github.com/ErdemOzgen/blackdagger/internal/logger"
@@ -51,6 +50,10 @@ type pcase struct {
 	ViaClient bool     `json:"via"`     // wrap as client.Start does ("…" + escapeArg) before removeQuotes
 	Out       string   `json:"out"`     // hex: bytes the producer prints on stdout
 	ErrOut    string   `json:"errout"`  // hex: bytes the producer prints on stderr
+	OutName   string     `json:"outname"` // name of the producer's output variable (default OUT)
+	Envs      [][2]string `json:"envs"`    // DAG-level `env:` entries (name, value)
+	PreOut    bool       `json:"preout"`  // an earlier step captures an output under the same name
+	Restart   bool       `json:"restart"` // a third leg: `restart` after the retry
 	PFails    int      `json:"pfails"`  // the producer's first PFails attempts print something else and exit 1 (retryPolicy limit = PFails)
 	Want      []string `json:"want"`    // hex names of the variables to report
 	TimeoutMs int      `json:"timeout"` // per run of the child
@@ -80,6 +83,12 @@ func main() {
 	}
 	if len(os.Args) >= 4 && os.Args[1] == "--probearg" {
 		probeArg(os.Args[2], os.Args[3], os.Args[4:])
+		return
+	}
+	if len(os.Args) >= 2 && os.Args[1] == "--cli" {
+		if err := cmd.VerifExecute(os.Args[2:]); err != nil {
+			os.Exit(1)
+		}
 		return
 	}
 	if len(os.Args) >= 2 && os.Args[1] == "--child" {
@@ -232,9 +241,9 @@ func runChild(c pcase) map[string]any {
 	}
 	done := make(chan error, 1)
 	go func() { done <- cm.Wait() }()
-	to := time.Duration(c.TimeoutMs) * time.Millisecond
-	if to <= 0 {
-		to = 20 * time.Second
+	to := 3*time.Duration(c.TimeoutMs)*time.Millisecond + 10*time.Second // the child bounds each of its (up to 3) CLI phases by TimeoutMs
+	if c.TimeoutMs <= 0 {
+		to = 200 * time.Second
 	}
 	timedOut := false
 	select {
@@ -401,28 +410,45 @@ func runDyn(c pcase, res map[string]any) {
 	tmp := c.Dir
 	self, _ := os.Executable()
 	dags, data, logs := filepath.Join(tmp, "dags"), filepath.Join(tmp, "data"), filepath.Join(tmp, "logs")
-	for _, d := range []string{dags, data, logs, filepath.Join(tmp, "suspend")} {
+	for _, d := range []string{dags, data, logs, filepath.Join(tmp, "suspend"), filepath.Join(tmp, "config")} {
 		_ = os.MkdirAll(d, 0o755)
+	}
+	outName := c.OutName
+	if outName == "" {
+		outName = "OUT"
 	}
 	_ = os.WriteFile(filepath.Join(tmp, "payload.bin"), []byte(unhex(c.Out)), 0o644)
 	_ = os.WriteFile(filepath.Join(tmp, "errpayload.bin"), []byte(unhex(c.ErrOut)), 0o644)
 	_ = os.WriteFile(filepath.Join(tmp, "emit.sh"), []byte("d=\"$(dirname \"$0\")\"\nk=$(cat \"$d/pcount\" 2>/dev/null || echo 0)\necho $((k+1)) > \"$d/pcount\"\n"+
 		fmt.Sprintf("if [ $k -lt %d ]; then printf 'early-attempt-%%s-output = not the value\\n' $k; exit 1; fi\n", c.PFails)+
 		"cat \"$d/payload.bin\"\ncat \"$d/errpayload.bin\" >&2\n"), 0o755)
+	_ = os.WriteFile(filepath.Join(tmp, "pre2.sh"), []byte("printf 'earlier output under the same name\\n'\n"), 0o755)
 	_ = os.WriteFile(filepath.Join(tmp, "failer.sh"), []byte("d=\"$(dirname \"$0\")\"\nif [ -f \"$d/failed_once\" ]; then exit 0; fi\n: > \"$d/failed_once\"\nexit 1\n"), 0o755)
 	pr := func(pos string) string { return yq(self + " --probe " + pos + " " + tmp) }
-	pa := func(pos string) string { return yq(self + " --probearg " + pos + " " + tmp + " $OUT") }
+	pa := func(pos string) string { return yq(self + " --probearg " + pos + " " + tmp + " $" + outName) }
 	retryPol := ""
 	if c.PFails > 0 {
 		retryPol = fmt.Sprintf("    retryPolicy:\n      limit: %d\n      intervalSec: 0\n", c.PFails)
 	}
 	var y strings.Builder
+	if len(c.Envs) > 0 {
+		y.WriteString("env:\n")
+		for _, e := range c.Envs {
+			y.WriteString("  - " + e[0] + ": " + yq(e[1]) + "\n")
+		}
+	}
 	if c.Params != "" {
 		y.WriteString("params: " + yq(unhex(c.Params)) + "\n")
 	}
 	y.WriteString("steps:\n")
 	y.WriteString("  - name: before\n    command: " + pr("before") + "\n")
-	y.WriteString("  - name: producer\n    command: " + yq("sh "+filepath.Join(tmp, "emit.sh")) + "\n    output: OUT\n    depends: [before]\n" + retryPol)
+	prodDep := "before"
+	if c.PreOut {
+		// another step captured an output under the SAME name earlier
+		y.WriteString("  - name: pre2\n    command: " + yq("sh "+filepath.Join(tmp, "pre2.sh")) + "\n    output: " + outName + "\n    depends: [before]\n")
+		prodDep = "pre2"
+	}
+	y.WriteString("  - name: producer\n    command: " + yq("sh "+filepath.Join(tmp, "emit.sh")) + "\n    output: " + outName + "\n    depends: [" + prodDep + "]\n" + retryPol)
 	y.WriteString("  - name: adjacent\n    command: " + pr("adjacent") + "\n    depends: [producer]\n")
 	y.WriteString("  - name: adjacentarg\n    command: " + pa("adjacentarg") + "\n    depends: [producer]\n")
 	y.WriteString("  - name: middle\n    command: \"true\"\n    depends: [adjacent]\n")
@@ -437,62 +463,120 @@ func runDyn(c pcase, res map[string]any) {
 	file := filepath.Join(dags, "c11dag.yaml")
 	_ = os.WriteFile(file, []byte(y.String()), 0o644)
 
-	start := unhex(c.Start)
-	if c.ViaClient && start != "" {
-		start = fmt.Sprintf(`"%s"`, client.VerifEscapeArg(start)) // client.Start's argument …
+	// the REAL command line in processes of their own (`blackdagger start|retry|restart`, package cmd through the hook)
+	cliEnv := append(os.Environ(),
+		"BLACKDAGGER_DAGS_DIR="+dags, "BLACKDAGGER_WORK_DIR="+tmp, "BLACKDAGGER_BASE_CONFIG="+filepath.Join(tmp, "config", "base.yaml"),
+		"BLACKDAGGER_LOG_DIR="+logs, "BLACKDAGGER_DATA_DIR="+data, "BLACKDAGGER_SUSPEND_FLAGS_DIR="+filepath.Join(tmp, "suspend"),
+		"BLACKDAGGER_ADMIN_LOG_DIR="+filepath.Join(logs, "admin"))
+	to := time.Duration(c.TimeoutMs) * time.Millisecond
+	if to <= 0 {
+		to = 60 * time.Second
 	}
-	start = cmd.VerifRemoveQuotes(start) // … and what cmd/start.go does with it
+	cli := func(phase string, args ...string) (timedOut bool) {
+		_ = os.WriteFile(filepath.Join(tmp, "phase"), []byte(phase), 0o644)
+		cm := exec.Command(self, append([]string{"--cli"}, args...)...)
+		cm.Env = cliEnv
+		cm.Dir = tmp
+		cm.SysProcAttr = &syscall.SysProcAttr{Setpgid: true}
+		var eb bytes.Buffer
+		cm.Stderr = &eb
+		if err := cm.Start(); err != nil {
+			res[phase+"_cli_err"] = err.Error()
+			return false
+		}
+		done := make(chan error, 1)
+		go func() { done <- cm.Wait() }()
+		select {
+		case err := <-done:
+			if err != nil {
+				res[phase+"_exit"] = err.Error()
+			}
+		case <-time.After(to):
+			_ = syscall.Kill(-cm.Process.Pid, syscall.SIGKILL)
+			killByDir(tmp)
+			<-done
+			return true
+		}
+		return false
+	}
 	ds := dsclient.NewDataStores(dags, data, filepath.Join(tmp, "suspend"), dsclient.DataStoreOptions{})
-	cli := client.New(ds, "", tmp, quietLg)
+	latest := func(not ...string) *model.Status {
+		for _, sf := range ds.HistoryStore().ReadStatusRecent(file, 5) {
+			skip := false
+			for _, n := range not {
+				if sf.Status.RequestID == n {
+					skip = true
+				}
+			}
+			if !skip {
+				return sf.Status
+			}
+		}
+		return nil
+	}
+	finish := func() {
+		res["probes"] = collect(tmp, c.Want)
+		res["argprobes"] = collectArgs(tmp)
+	}
 
-	// ---- run 1 (as `start`)
-	_ = os.WriteFile(filepath.Join(tmp, "phase"), []byte("run1"), 0o644)
-	wf, err := dag.Load("", file, start)
-	if err != nil {
-		res["load_err"] = err.Error()
+	// ---- run 1: `start [-p <what the user / the API client puts on the command line>] -q file`
+	args := []string{"start", "-q"}
+	if start := unhex(c.Start); start != "" {
+		if c.ViaClient {
+			start = fmt.Sprintf(`"%s"`, client.VerifEscapeArg(start)) // client.Start's argument
+		}
+		args = append(args, "-p", start)
+	}
+	if cli("run1", append(args, file)...) {
+		res["timeout"], res["phase"] = true, "run1"
+		finish()
 		return
 	}
-	res["dag_params"] = hxs(wf.Params)
-	req1 := "11111111-aaaa-bbbb-cccc-000000000001"
-	agt := agent.New(req1, wf, quietLg, logs, "", cli, ds, &agent.Options{})
-	err = agt.Run(context.Background())
-	if err != nil {
-		res["run1_err"] = err.Error()
+	st1 := latest()
+	if st1 == nil {
+		res["load_err"] = fmt.Sprint("start left no record: ", res["run1_exit"])
+		finish()
+		return
 	}
-	st1 := agt.Status()
 	res["run1_status"] = st1.Status.String()
 	res["run1_nodes"] = nodeStatuses(st1)
+	res["recorded_params"] = hx(st1.Params)
 	if b, e := os.ReadFile(filepath.Join(tmp, "pcount")); e == nil {
 		res["producer_attempts"] = strings.TrimSpace(string(b))
 	}
 
-	// ---- run 2 (as `retry --req`): recorded status from the history store, DAG re-loaded with the
-	//      recorded parameter string
-	_ = os.WriteFile(filepath.Join(tmp, "phase"), []byte("run2"), 0o644)
-	rec, err := ds.HistoryStore().FindByRequestID(file, req1)
-	if err != nil {
-		res["find_err"] = err.Error()
-		res["probes"] = collect(tmp, c.Want)
+	// ---- run 2: `retry --req=<id> file`
+	if cli("run2", "retry", "--req="+st1.RequestID, file) {
+		res["timeout"], res["phase"] = true, "run2"
+		finish()
 		return
 	}
-	res["recorded_params"] = hx(rec.Status.Params)
-	wf2, err := dag.Load("", file, rec.Status.Params)
-	if err != nil {
-		res["load2_err"] = err.Error()
-		res["probes"] = collect(tmp, c.Want)
+	st2 := latest(st1.RequestID)
+	if st2 == nil {
+		res["load2_err"] = fmt.Sprint("retry left no record: ", res["run2_exit"])
+		finish()
 		return
 	}
-	res["dag_params2"] = hxs(wf2.Params)
-	agt2 := agent.New("22222222-aaaa-bbbb-cccc-000000000002", wf2, quietLg, logs, "", cli, ds, &agent.Options{RetryTarget: rec.Status})
-	err = agt2.Run(context.Background())
-	if err != nil {
-		res["run2_err"] = err.Error()
-	}
-	st2 := agt2.Status()
 	res["run2_status"] = st2.Status.String()
 	res["run2_nodes"] = nodeStatuses(st2)
-	res["probes"] = collect(tmp, c.Want)
-	res["argprobes"] = collectArgs(tmp)
+	res["recorded_params2"] = hx(st2.Params)
+
+	// ---- run 3: `restart -q file` (re-uses the parameters of the latest run)
+	if c.Restart {
+		if cli("run3", "restart", "-q", file) {
+			res["timeout"], res["phase"] = true, "run3"
+			finish()
+			return
+		}
+		if st3 := latest(st1.RequestID, st2.RequestID); st3 != nil {
+			res["run3_status"] = st3.Status.String()
+			res["run3_nodes"] = nodeStatuses(st3)
+			res["recorded_params3"] = hx(st3.Params)
+		} else {
+			res["load3_err"] = fmt.Sprint("restart left no record: ", res["run3_exit"])
+		}
+	}
+	finish()
 }
 
 func nodeStatuses(st *model.Status) map[string]string {
